@@ -10,6 +10,7 @@
 //! Replay line:  `cap=<total> c0=<bytes> o=<bytes> | <ops of T0> | <ops of T1> ... | s=<t,t,...>`
 //! ops: g<k> get, i<k>:<1|0>:<v> get_or_insert (init ok / fails), u<k> unpin, w<k>:<v> write,
 //! r<k> read, c clear, e evict_all_unpinned.   k = file_id * 2^32 + page_no.
+//! (Code as of /repo b391e62: a failing init releases its charge at site 112; clear() starts at site 502.)
 use std::sync::atomic::{AtomicUsize, Ordering};
 use std::sync::{Arc, Mutex};
 use std::time::{Duration, Instant};
